@@ -56,7 +56,11 @@ def classes : List Cls := [
   c "SNAP" .be 8 [],
   c "VXLAN" .be 8 [],
   c "STP" .be 35 [],
-  c "Dot11" .le 10 []
+  c "Dot11" .le 10 [],
+  c "Dot11Data" .le 24 [],
+  c "Dot11Beacon" .le 24 [],
+  c "Dot11RTS" .le 16 [],
+  c "Dot11BlockAckRequest" .le 20 []
 ]
 
 def rows : List Row := [
@@ -174,7 +178,77 @@ def rows : List Row := [
   r "Dot11" "wep" .le 14 1 .num .rw,
   r "Dot11" "order" .le 15 1 .num .rw,
   r "Dot11" "duration_id" .le 16 16 .num .rw,
-  r "Dot11" "addr1" .le 32 48 .bytes .rw
+  r "Dot11" "addr1" .le 32 48 .bytes .rw,
+  -- IEEE 802.11-2016 §9.3.2 data frames / §9.3.3 management frames: address 2, address 3, sequence control
+  --   (fragment number B0..B3, sequence number B4..B15)
+  r "Dot11Data" "protocol" .le 0 2 .num .rw,
+  r "Dot11Data" "type" .le 2 2 .num .rw,
+  r "Dot11Data" "subtype" .le 4 4 .num .rw,
+  r "Dot11Data" "to_ds" .le 8 1 .num .rw,
+  r "Dot11Data" "from_ds" .le 9 1 .num .rw,
+  r "Dot11Data" "more_frag" .le 10 1 .num .rw,
+  r "Dot11Data" "retry" .le 11 1 .num .rw,
+  r "Dot11Data" "power_mgmt" .le 12 1 .num .rw,
+  r "Dot11Data" "more_data" .le 13 1 .num .rw,
+  r "Dot11Data" "wep" .le 14 1 .num .rw,
+  r "Dot11Data" "order" .le 15 1 .num .rw,
+  r "Dot11Data" "duration_id" .le 16 16 .num .rw,
+  r "Dot11Data" "addr1" .le 32 48 .bytes .rw,
+  r "Dot11Data" "addr2" .le 80 48 .bytes .rw,
+  r "Dot11Data" "addr3" .le 128 48 .bytes .rw,
+  r "Dot11Data" "frag_num" .le 176 4 .num .rw,
+  r "Dot11Data" "seq_num" .le 180 12 .num .rw,
+  r "Dot11Beacon" "protocol" .le 0 2 .num .rw,
+  r "Dot11Beacon" "type" .le 2 2 .num .rw,
+  r "Dot11Beacon" "subtype" .le 4 4 .num .rw,
+  r "Dot11Beacon" "to_ds" .le 8 1 .num .rw,
+  r "Dot11Beacon" "from_ds" .le 9 1 .num .rw,
+  r "Dot11Beacon" "more_frag" .le 10 1 .num .rw,
+  r "Dot11Beacon" "retry" .le 11 1 .num .rw,
+  r "Dot11Beacon" "power_mgmt" .le 12 1 .num .rw,
+  r "Dot11Beacon" "more_data" .le 13 1 .num .rw,
+  r "Dot11Beacon" "wep" .le 14 1 .num .rw,
+  r "Dot11Beacon" "order" .le 15 1 .num .rw,
+  r "Dot11Beacon" "duration_id" .le 16 16 .num .rw,
+  r "Dot11Beacon" "addr1" .le 32 48 .bytes .rw,
+  r "Dot11Beacon" "addr2" .le 80 48 .bytes .rw,
+  r "Dot11Beacon" "addr3" .le 128 48 .bytes .rw,
+  r "Dot11Beacon" "frag_num" .le 176 4 .num .rw,
+  r "Dot11Beacon" "seq_num" .le 180 12 .num .rw,
+  -- §9.3.1.2 RTS: RA, TA
+  r "Dot11RTS" "protocol" .le 0 2 .num .rw,
+  r "Dot11RTS" "type" .le 2 2 .num .rw,
+  r "Dot11RTS" "subtype" .le 4 4 .num .rw,
+  r "Dot11RTS" "to_ds" .le 8 1 .num .rw,
+  r "Dot11RTS" "from_ds" .le 9 1 .num .rw,
+  r "Dot11RTS" "more_frag" .le 10 1 .num .rw,
+  r "Dot11RTS" "retry" .le 11 1 .num .rw,
+  r "Dot11RTS" "power_mgmt" .le 12 1 .num .rw,
+  r "Dot11RTS" "more_data" .le 13 1 .num .rw,
+  r "Dot11RTS" "wep" .le 14 1 .num .rw,
+  r "Dot11RTS" "order" .le 15 1 .num .rw,
+  r "Dot11RTS" "duration_id" .le 16 16 .num .rw,
+  r "Dot11RTS" "addr1" .le 32 48 .bytes .rw,
+  r "Dot11RTS" "target_addr" .le 80 48 .bytes .rw,
+  -- §9.3.1.8 BlockAckReq: RA, TA, BAR control (libtins exposes its low nibble B0..B3), starting sequence control
+  --   (fragment number B0..B3, starting sequence number B4..B15)
+  r "Dot11BlockAckRequest" "protocol" .le 0 2 .num .rw,
+  r "Dot11BlockAckRequest" "type" .le 2 2 .num .rw,
+  r "Dot11BlockAckRequest" "subtype" .le 4 4 .num .rw,
+  r "Dot11BlockAckRequest" "to_ds" .le 8 1 .num .rw,
+  r "Dot11BlockAckRequest" "from_ds" .le 9 1 .num .rw,
+  r "Dot11BlockAckRequest" "more_frag" .le 10 1 .num .rw,
+  r "Dot11BlockAckRequest" "retry" .le 11 1 .num .rw,
+  r "Dot11BlockAckRequest" "power_mgmt" .le 12 1 .num .rw,
+  r "Dot11BlockAckRequest" "more_data" .le 13 1 .num .rw,
+  r "Dot11BlockAckRequest" "wep" .le 14 1 .num .rw,
+  r "Dot11BlockAckRequest" "order" .le 15 1 .num .rw,
+  r "Dot11BlockAckRequest" "duration_id" .le 16 16 .num .rw,
+  r "Dot11BlockAckRequest" "addr1" .le 32 48 .bytes .rw,
+  r "Dot11BlockAckRequest" "target_addr" .le 80 48 .bytes .rw,
+  r "Dot11BlockAckRequest" "bar_control" .le 128 4 .num .rw,
+  r "Dot11BlockAckRequest" "fragment_number" .le 144 4 .num .rw,
+  r "Dot11BlockAckRequest" "start_sequence" .le 148 12 .num .rw
 ]
 
 def classOf (n : String) : Option Cls := classes.find? (·.name == n)
